@@ -22,10 +22,12 @@ HARNESS_MODULES = {
     'C04': ['framing:shards_c04'],
     'C05': ['c05_canonical'],
     'C06': ['c06_tls_layout'],
+    'C07': ['c07_ssh:shards_c07'],
     'C09': ['c09_apps'],
     'C10': ['c10_codes'],
     'C11': ['c11_prims'],
     'C12': ['c12_vectors'],
+    'C16': ['c07_ssh:shards_c16'],
     'C17': ['c17_version'],
 }
 
@@ -115,7 +117,10 @@ def check_property(prop, tier, seed, only=None):  # pylint: disable=too-many-loc
                 res['diff_failures'],)))
         elif res['verdict'] == 'ERROR':
             harness_errors.append((label, res['message']))
-        elif res['verdict'] == 'CONFIRMED' and shard.twin and res.get('twin') != 'reachable':
+        elif (res['verdict'] == 'CONFIRMED' and shard.twin and res.get('twin') != 'reachable' and
+              not (str(res.get('twin')).startswith('unknown') and res.get('diff_reached', 0) > 0)):
+            # (a twin that cannot be rendered - e.g. a 5000-byte witness - is accepted when native runs of the same
+            # harness demonstrably reach the assertion)
             row['verdict'] = 'VACUOUS'
             harness_errors.append((label, 'vacuity twin: %s' % res.get('twin')))
         elif res['verdict'] == 'REFUTED':
